@@ -26,6 +26,7 @@ import KafkaVerif.Base.Proto
 import KafkaVerif.Spec.Crc
 import KafkaVerif.Spec.RecordBatch
 import KafkaVerif.Model.RecordWriter
+import KafkaVerif.Model.RecordReader
 
 namespace KV.OracleC05
 open KV KV.RW KV.Spec.RB
@@ -164,8 +165,12 @@ def checkWire (tag : String) (bytes : Bytes) (zs : List Z) (impl : String) : Str
       let groups := if produced then (es.zip groups).map (fun (e, g) => unwrapProduced e g) else groups
       let visible := groups.filter (fun g => !(hide && g.1))
       let recs := (visible.map (·.2)).flatten
-      let model := showRecs loose recs
-      s!"model={model} holds={if model == impl && prodOk && oneBatch && (!reject || !complete) then 1 else 0}"
+      let spec := showRecs loose recs
+      -- Client.Fetch path: `model` is what the DECODER MODEL (Model/RecordReader) returns for these bytes, the
+      -- monitor stays the reference decoder
+      let model := if tag.startsWith "fetch/recordset" || tag.startsWith "fetch/client"
+        then showRecs loose (Model.RecordReader.clientFetch crcs (decWith zs) bytes) else spec
+      s!"model={model} holds={if spec == impl && prodOk && oneBatch && (!reject || !complete) then 1 else 0}"
 
 /-! ### requests -/
 
